@@ -167,8 +167,15 @@ def main():
         n = rng.choice([2, 3, 4, 7, 8, 16, 17, 63, 64, 255, 256, rng.randrange(1, 300)])
         msgs.append(bytes(rng.randrange(256) for _ in range(n)))
     for m in msgs:
-        a = bytes(D.add_crc_a(bytearray(m)))
-        b = bytes(D.add_crc_b(bytearray(m)))
+        # the caller's buffer must come back unchanged (drivers and tag code retransmit from the same bytearray), so
+        # a second call on the same buffer must give the same frame
+        buf_a, buf_b = bytearray(m), bytearray(m)
+        a = bytes(D.add_crc_a(buf_a))
+        b = bytes(D.add_crc_b(buf_b))
+        if bytes(buf_a) != m or bytes(buf_b) != m or bytes(D.add_crc_a(buf_a)) != a or bytes(D.add_crc_b(buf_b)) != b:
+            ck.violation('crc-add-mutates-argument', 'add_crc_a/add_crc_b changed the caller\'s buffer: a retransmission from the same '
+                         'bytearray is sent with the CRC appended twice', {'msg': hx(m), 'buf_a_after': hx(bytes(buf_a)), 'buf_b_after': hx(bytes(buf_b))})
+            break
         add('add_crc_a ' + hexarg(m), hexarg(a), 'crc-add', ('a', m), len(m) > 0)
         add('add_crc_b ' + hexarg(m), hexarg(b), 'crc-add', ('b', m), len(m) > 0)
         # monitor against the independent bit-serial definition
